@@ -29,22 +29,22 @@ const (
 	kInt
 	kStruct
 	kNil
-	kRef // the address of a variable or field that does not hold a struct (e.g. &g.extra with extra a pointer)
+	kRef  // the address of a variable or field that does not hold a struct (e.g. &g.extra with extra a pointer)
 	kFunc // a function literal together with the frame it was created in
 )
 
 type val struct {
-	k    vkind
-	name string // scalar: atom name
-	b    bool
-	n    int64
-	f    map[string]*val
-	typ  types.Type
-	str  bool // a string value (compared only for equality)
-	maybeNil bool // an input of pointer/interface/slice type: it may be nil
-	refBox   *val           // kRef: the struct whose field is addressed (nil: a frame variable)
-	refField string         // kRef: the field
-	refObj   types.Object   // kRef: the frame variable
+	k        vkind
+	name     string // scalar: atom name
+	b        bool
+	n        int64
+	f        map[string]*val
+	typ      types.Type
+	str      bool         // a string value (compared only for equality)
+	maybeNil bool         // an input of pointer/interface/slice type: it may be nil
+	refBox   *val         // kRef: the struct whose field is addressed (nil: a frame variable)
+	refField string       // kRef: the field
+	refObj   types.Object // kRef: the frame variable
 	refFrame *e8frame
 	lit      *ast.FuncLit // kFunc
 	env      *e8frame     // kFunc: the defining frame (captured variables are shared)
@@ -148,7 +148,7 @@ func (a *e8assign) B(name string) bool {
 type e8frame struct {
 	pkg   *packages.Package
 	vars  map[types.Object]*val
-	named map[string]*val // inputs named by their source text (x[i], len(x))
+	named map[string]*val         // inputs named by their source text (x[i], len(x))
 	lazy  map[types.Object]string // inputs created on first use, with their canonical names
 }
 
@@ -157,19 +157,19 @@ func newFrame(pkg *packages.Package) *e8frame {
 }
 
 type e8interp struct {
-	p       *Program
-	a       *e8assign
-	depth   int
-	collect *e8collector // discovery mode: record atoms instead of failing
-	lenEqOpaque bool     // treat len(x) == const as an opaque boolean
-	trace   []e8call     // opaque calls executed on this run, in order
-	opaque  map[*types.Func]bool // repository functions that must not be entered
-	frozen  map[types.Object]bool // variables whose assignments are ignored (they stay inputs)
-	opaquePkg map[*types.Package]bool // packages whose functions must not be entered
-	lens      map[string]int64    // len(x) of these inputs is a concrete number (index analyses over small sizes)
-	rangeMax  int                 // range loops over opaque slices run 0..rangeMax times over distinct opaque elements
-	rangeOnce bool                // range loops run zero times or once (for rows that do not depend on them)
-	havoc   bool                  // variables written by a function literal handed to an opaque call become fresh atoms after the call
+	p           *Program
+	a           *e8assign
+	depth       int
+	collect     *e8collector            // discovery mode: record atoms instead of failing
+	lenEqOpaque bool                    // treat len(x) == const as an opaque boolean
+	trace       []e8call                // opaque calls executed on this run, in order
+	opaque      map[*types.Func]bool    // repository functions that must not be entered
+	frozen      map[types.Object]bool   // variables whose assignments are ignored (they stay inputs)
+	opaquePkg   map[*types.Package]bool // packages whose functions must not be entered
+	lens        map[string]int64        // len(x) of these inputs is a concrete number (index analyses over small sizes)
+	rangeMax    int                     // range loops over opaque slices run 0..rangeMax times over distinct opaque elements
+	rangeOnce   bool                    // range loops run zero times or once (for rows that do not depend on them)
+	havoc       bool                    // variables written by a function literal handed to an opaque call become fresh atoms after the call
 }
 
 // e8call records one executed call whose body the interpreter does not enter
